@@ -5,23 +5,25 @@
    arbitrarily nested).
    Statements proved in Refine/GenSpec.v, nothing else here. *)
 From PFDL Require Import NetModel NetRun RunCase.
-From PFDL.Refine Require Import Eval Layout GenSpec Abs Sim Main.
+From PFDL.Refine Require Import Eval Layout GenSpec Abs SrcKeys Sim Main.
 
 (* Every statement occurrence of the unfolding: the structural walk creates exactly the places,
    transitions, arcs, callbacks, API records and place_dict entries of the design
    (DESIGN.md Appendix A; [wired]), at the creation indices Layout.v computes; the entering
    transition gains the entry arcs and start callbacks, the following transition gains the exit
-   place, and nothing else in the net changes ([Gen]).  [il]: the component lies in a loop body
-   (the API records carry that flag); [k]: the source site of the statement (task name, path),
-   which is the key of a counting loop's counter. *)
+   place, and nothing else in the net changes ([Gen]).  [k]: the source site of the statement
+   (task name, path: the key of a counting loop's counter) together with the flag "lies in a loop
+   body" (the API records carry that flag); [LV] / [keys_ok]: every counting loop of the
+   component stands at a site where the program binds its counting variable. *)
 Theorem generator_builds_component :
-  forall s, frag s = true -> forall il k ctx t1 t2 ns,
+  forall (LV : LoopVars) s, frag s = true -> forall k ctx t1 t2 ns,
+    keys_ok s (s_tn k) (s_pre k) (s_idx k) ->
     okns ns -> t1 < List.length (ns_trans ns) -> t2 < List.length (ns_trans ns) ->
     let p := pos_of k ns in
-    exists ns', pg_stmt il k ctx s t1 t2 ns = Ok (exits s p, ns') /\
+    exists ns', pg_stmt (s_il k) k ctx s t1 t2 ns = Ok (exits s p, ns') /\
                 Gen ns ns' t1 t2 (entries s p) (startcbs s p ctx) [xplace s p] /\
                 pos_of (si_next k) ns' = adv s p /\ okns ns' /\ wired ns' s p ctx [].
-Proof. exact gen_ok. Qed.
+Proof. exact (@gen_ok). Qed.
 Print Assumptions generator_builds_component.
 
 (* generate_stmt of the implementation model on the source program performs exactly that walk
@@ -29,25 +31,26 @@ Print Assumptions generator_builds_component.
 Theorem generator_walks_the_unfolding :
   forall tasks fu il tn pre i s x, unfold_stmt tasks fu tn (pre ++ [i]) s = Ok x -> frag x = true ->
     forall g ctx t1 t2 ns, need x <= g ->
-      generate_stmt tasks g ctx tn (pre ++ [i]) s t1 t2 il ns = pg_stmt il (mksi tn pre i) ctx x t1 t2 ns.
+      generate_stmt tasks g ctx tn (pre ++ [i]) s t1 t2 il ns = pg_stmt il (mksi tn pre i il) ctx x t1 t2 ns.
 Proof. exact A_stmt. Qed.
 Print Assumptions generator_walks_the_unfolding.
 
 (* the whole net of an order: Scheduler(...) on a program whose unfolding [body] lies in the
-   fragment yields the net [NetOf body] *)
+   fragment yields the net [NetOf body]; the counting variables are those of the program
+   (SrcKeys.unfold_program_keys: the unfolding places every counting loop at its source site) *)
 Theorem generator_builds_the_net :
   forall tasks fu body,
     unfold_program tasks fu = Ok body -> frag_block body = true -> need_l body < 200 ->
-    exists N, net_init tasks true = Ok N /\ NetOf body N.
-Proof. exact net_init_spec. Qed.
+    exists N, net_init tasks true = Ok N /\ NetOf (LV := loop_var tasks) body N.
+Proof. exact net_of_program. Qed.
 Print Assumptions generator_builds_the_net.
 
 (* Part 2: the simulation.  Statements proved in Refine/Sim.v and Refine/Main.v. *)
 
 (* starting a component: the start callbacks of the component, run in their registration
    order on the net, produce the API store, the bookkeeping, the log, the awaited identifiers
-   and the loop counters that RefSem.start_stmt denotes.  [NC]: the program has no counting
-   loop (then nothing is required of parameter lists, see Abs.sok) *)
+   and the loop counters that RefSem.start_stmt denotes (parameter lists inside counting loops
+   with the loop indices substituted).  [NC]: the program has no counting loop *)
 Theorem start_simulation :
   forall NC tasks env, env_quiet env -> forall orc imm, (forall k, ec_imm env k = imm k) ->
   forall IM, (IM = false -> forall k, imm k = false) -> ec_orc env = orc ->
@@ -68,7 +71,7 @@ Print Assumptions deliver_simulation.
 Theorem script_simulation :
   forall NC tasks env, env_quiet env -> forall orc imm, (forall k, ec_imm env k = imm k) ->
   forall IM, (IM = false -> forall k, imm k = false) -> ec_orc env = orc ->
-  forall body N0, NetOf body N0 -> frag_block body = true -> sok_block NC true body = true ->
+  forall body N0, NetOf (LV := loop_var tasks) body N0 -> frag_block body = true -> sok_block NC true body = true ->
   forall fu script sc ns tr,
     forallb (ok_call IM) script = true -> Rel NC IM body N0 sc ns ->
     run_script orc imm fu body sc script = Ok tr ->
@@ -79,8 +82,8 @@ Print Assumptions script_simulation.
 (* THE REFINEMENT THEOREM (services, task calls, Parallel, Condition with or without a Failed
    block, While loops, arbitrarily nested; and sequential counting loops -- constant or queried
    limit, arbitrarily nested with Conditions / While loops / each other, any of the above in
-   their bodies, also inside called tasks: every task instance has its own counters --, in
-   programs whose parameter lists do not mention loop indices; see Main.in_fragment.  Components may
+   their bodies, also inside called tasks: every task instance has its own counters; parameter
+   lists may mention the loop indices --; see Main.in_fragment.  Components may
    complete at once, inside the evaluation that the callback of a Condition or of a loop opens,
    and loop bodies are entered again with the identifiers of the previous iteration still in the
    API records; every kind of API call in the script; the answers of the variable access
@@ -256,8 +259,7 @@ Print Assumptions exw_refines.
 (* Counting loops: a loop with a constant limit whose body is a service
    and a task call (two iterations); a loop whose limit is queried from the variable access
    function before every test, with a nested counting loop and a Condition in its body (the test
-   of the Condition fails in the second iteration); a loop with no iteration.  No parameter
-   mentions a loop index. *)
+   of the Condition fails in the second iteration); a loop with no iteration. *)
 Definition exl_tasks : list task :=
   [{| t_name := 0; t_ins := [];
       t_body := [SCount false 40 (LimInt 2) [SService 31 [PVar 16] []; SCall (cl 17)];
@@ -326,6 +328,51 @@ Proof.
   exists f0. intros f Hf. rewrite Href. apply H. exact Hf.
 Qed.
 Print Assumptions exk_refines.
+
+(* Loop indices in parameters: inside counting loops the parameter lists of services and task
+   calls mention the counting variables; every start substitutes the current counters (of the
+   task instance: a called task does not see the loops of its caller, and a variable that is
+   bound twice means the innermost loop).  Nested loops, a variable bound again inside its own
+   loop, a While loop and a Condition inside counting loops, a Parallel of calls whose parameters
+   carry indices, a called task with its own loops and the same variable name. *)
+Definition ix (v : nat) : param := PPath 16 [PF 5; PIdxVar v].
+Definition ix2 (v w : nat) : param := PPath 16 [PF 5; PIdxVar v; PF 6; PIdxVar w].
+Definition cli (n : nat) (ps : list param) : call := {| c_name := n; c_ins := ps; c_outs := [] |}.
+Definition exm_tasks : list task :=
+  [{| t_name := 0; t_ins := [];
+      t_body := [SService 20 [ix 40] [];
+                 SCount false 40 (LimInt 2)
+                   [SService 21 [ix 40; ix 41] [];
+                    SCall (cli 17 [ix 40]);
+                    SCount false 41 (LimInt 2) [SService 22 [ix2 40 41] []; SCond (lt3 30) [SService 23 [ix 41] []] []];
+                    SCount false 40 (LimInt 1) [SService 24 [ix 40] []];
+                    SWhile (lt3 30) [SService 25 [ix 40] []];
+                    SParallel [cli 18 [ix 40]; cli 17 [ix 41]]];
+                 SService 26 [ix 40] []];
+      t_outs := [] |};
+   {| t_name := 17; t_ins := [];
+      t_body := [SService 27 [ix 40] []; SCount false 40 (LimInt 1) [SService 28 [ix 40] []]]; t_outs := [] |};
+   {| t_name := 18; t_ins := []; t_body := [SCount false 42 (LimInt 2) [SCall (cli 17 [ix 42; ix 40])]]; t_outs := [] |}].
+Definition exm_case : runcase :=
+  {| rc_prog := {| p_structs := []; p_tasks := exm_tasks |};
+     rc_vals := map (fun n => VStruct [(4, VNum (QArith_base.Qmake n 1%positive))]) [1; 1; 7; 1; 7; 1; 7; 1; 1; 1; 7; 1; 7]%Z;
+     rc_imm := [false];
+     rc_script := AStart :: map AFinish (seq 0 30);
+     rc_react := [None]; rc_react_all := false; rc_mutate := 0; rc_test_ids := true |}.
+
+Example exm_in_fragment : in_fragment exm_case = true.
+Proof. vm_compute. reflexivity. Qed.
+
+Example exm_runs : exists tr, run_ref exm_case = Ok tr /\ List.length tr = 31 /\ existsb (fun r => cr_final r) tr = true
+                              /\ run_net exm_case = Ok tr.
+Proof. eexists. split; [vm_compute; reflexivity|]. split; [reflexivity|]. split; [reflexivity|]. vm_compute. reflexivity. Qed.
+
+Example exm_refines : exists f0, forall f, f0 <= f -> run_net_f f exm_case = run_ref exm_case.
+Proof.
+  destruct exm_runs as (tr & Href & _). destruct (Main.net_refines_ref_fragment exm_case exm_in_fragment tr Href) as [f0 H].
+  exists f0. intros f Hf. rewrite Href. apply H. exact Hf.
+Qed.
+Print Assumptions exm_refines.
 
 (* Immediate completions: the engine reports some services as finished from inside their
    service-started notification ([rc_imm]); everything that such a completion triggers -- the
